@@ -1,0 +1,211 @@
+//! Runtime-monitoring hooks (only compiled with the `verif-hooks` feature).
+//!
+//! Everything here is thread-local and inert until [`configure`] is called on
+//! the current thread: with the default configuration no event is recorded,
+//! no assertion fires and no budget applies, so a hook-enabled build behaves
+//! like the production build.
+
+use std::cell::RefCell;
+
+/// Kind of a state-storage operation.
+#[derive(Debug, Clone, Copy, PartialEq, Eq, Hash)]
+pub enum Kind {
+    Get,
+    Set,
+    Mem,
+    Delay,
+    Push,
+    Pop,
+}
+
+/// Which runtime produced the event.
+#[derive(Debug, Clone, Copy, PartialEq, Eq, Hash)]
+pub enum Backend {
+    Vm,
+    Wasm,
+}
+
+/// One observed state-storage operation.
+///
+/// `ctx_fn` is `-1` for the global (dsp) storage; for a closure storage it is
+/// the function-prototype index on the VM and the declared state size on WASM.
+/// `ctx_id` identifies the closure instance (slot-map key / linear-memory
+/// address), `0` for the global storage.
+/// For `Get/Set/Mem/Delay`, `size` is the number of words touched starting at
+/// `pos` (`Delay`: ring length + 2); for `Push/Pop` it is the cursor offset.
+/// `len` is the length of the storage *before* the operation.
+#[derive(Debug, Clone, Copy, PartialEq, Eq)]
+pub struct StateEvent {
+    pub backend: Backend,
+    pub ctx_fn: i64,
+    pub ctx_id: u64,
+    pub kind: Kind,
+    pub pos: usize,
+    pub size: usize,
+    pub len: usize,
+}
+
+/// Other monitored events.
+#[derive(Debug, Clone, PartialEq, Eq)]
+pub enum MiscEvent {
+    /// A bounds / validity assertion failed (message starts with a site tag).
+    Violation(String),
+    /// A heap handle that is not live was retained/released/loaded/stored.
+    DeadHandle { op: &'static str, raw: u64 },
+    /// The state cursor of the wasm closure storage was non-zero at pop.
+    ClosurePopCursor { ctx_id: u64, pos: usize },
+}
+
+#[derive(Debug, Default)]
+pub struct Config {
+    /// Record [`StateEvent`]s.
+    pub record_state: bool,
+    /// Turn failed bounds checks on the VM into a tagged panic *before* the
+    /// unchecked access happens (off: record only, production access follows).
+    pub assert_bounds: bool,
+    /// Maximum number of VM instructions (0 = unlimited) until [`reset_steps`].
+    pub step_budget: u64,
+}
+
+#[derive(Default)]
+struct Local {
+    cfg: Config,
+    active: bool,
+    steps: u64,
+    total_steps: u64,
+    state_events: Vec<StateEvent>,
+    misc_events: Vec<MiscEvent>,
+    state_event_count: u64,
+}
+
+thread_local! {
+    static LOCAL: RefCell<Local> = RefCell::new(Local::default());
+}
+
+/// Activate the hooks on this thread.
+pub fn configure(cfg: Config) {
+    LOCAL.with(|l| {
+        let mut l = l.borrow_mut();
+        l.cfg = cfg;
+        l.active = true;
+        l.steps = 0;
+    });
+}
+
+/// Deactivate the hooks on this thread and drop recorded events.
+pub fn disable() {
+    LOCAL.with(|l| *l.borrow_mut() = Local::default());
+}
+
+pub fn reset_steps() {
+    LOCAL.with(|l| l.borrow_mut().steps = 0);
+}
+
+/// Instructions executed since activation.
+pub fn total_steps() -> u64 {
+    LOCAL.with(|l| l.borrow().total_steps)
+}
+
+/// Number of state events seen since activation (also counted when the
+/// buffer was drained).
+pub fn state_event_count() -> u64 {
+    LOCAL.with(|l| l.borrow().state_event_count)
+}
+
+pub fn take_state_events() -> Vec<StateEvent> {
+    LOCAL.with(|l| std::mem::take(&mut l.borrow_mut().state_events))
+}
+
+pub fn take_misc_events() -> Vec<MiscEvent> {
+    LOCAL.with(|l| std::mem::take(&mut l.borrow_mut().misc_events))
+}
+
+/// Called once per VM instruction.
+#[inline]
+pub(crate) fn step() {
+    let over = LOCAL.with(|l| {
+        let mut l = l.borrow_mut();
+        if !l.active {
+            return false;
+        }
+        l.steps += 1;
+        l.total_steps += 1;
+        l.cfg.step_budget != 0 && l.steps > l.cfg.step_budget
+    });
+    if over {
+        reset_steps();
+        panic!("VERIF-STEPS instruction budget exhausted");
+    }
+}
+
+pub(crate) fn misc(ev: MiscEvent) {
+    LOCAL.with(|l| {
+        let mut l = l.borrow_mut();
+        if l.active && l.misc_events.len() < 10_000 {
+            l.misc_events.push(ev);
+        }
+    });
+}
+
+/// Report a failed check. Returns after recording unless `assert_bounds` is
+/// set, in which case it panics with a `VERIF-OOB` tag.
+pub(crate) fn violation(msg: String) {
+    let (active, assert) = LOCAL.with(|l| {
+        let l = l.borrow();
+        (l.active, l.cfg.assert_bounds)
+    });
+    if !active {
+        return;
+    }
+    misc(MiscEvent::Violation(msg.clone()));
+    if assert {
+        panic!("VERIF-OOB {msg}");
+    }
+}
+
+/// Generic bounds check helper: `ok` must hold.
+#[inline]
+pub(crate) fn check(ok: bool, msg: impl FnOnce() -> String) {
+    if !ok {
+        violation(msg());
+    }
+}
+
+/// Record a state operation and check it against the storage length.
+pub(crate) fn state_op(ev: StateEvent) {
+    let active = LOCAL.with(|l| {
+        let mut l = l.borrow_mut();
+        if !l.active {
+            return false;
+        }
+        l.state_event_count += 1;
+        if l.cfg.record_state && l.state_events.len() < 4_000_000 {
+            l.state_events.push(ev);
+        }
+        true
+    });
+    if !active {
+        return;
+    }
+    match ev.kind {
+        Kind::Get | Kind::Set | Kind::Mem | Kind::Delay => {
+            if ev.backend == Backend::Vm {
+                check(ev.pos.checked_add(ev.size).is_some_and(|e| e <= ev.len), || {
+                    format!(
+                        "state {:?} ctx_fn={} pos={} size={} len={}",
+                        ev.kind, ev.ctx_fn, ev.pos, ev.size, ev.len
+                    )
+                });
+            }
+        }
+        Kind::Pop => {
+            check(ev.size <= ev.pos, || {
+                format!(
+                    "state cursor underflow {:?} ctx_fn={} pos={} offset={}",
+                    ev.backend, ev.ctx_fn, ev.pos, ev.size
+                )
+            });
+        }
+        Kind::Push => {}
+    }
+}
